@@ -146,6 +146,22 @@ def handle (st : St) (args : List String) (impl : String) : St × Verdict :=
       | none => (st, .unknown)
     | _, _, _, _ => (st, .unknown)
   | ["obs"] => (st, cmpModel (showObs st) impl)
+  | ["mine_weight", _] =>
+    -- The weight of the aggregate of the set offered for mining.  The property fixes an upper
+    -- bound: min(max_block_weight, mineable_max_weight) minus one output and one kernel for the
+    -- coinbase (proved for the model: `mineable_ok`); above it the line is a failing input.
+    -- Below it the value is compared with the model's own selection.
+    let c := st.ctx
+    let bound := min c.cfg.maxBlockW c.cfg.mineW - 24
+    match impl.toNat? with
+    | none => (st, .unknown)
+    | some w =>
+      if w > bound then (st, .fail s!"at most {bound}")
+      else
+        let mw := match st.pool.prepareMineable c with
+          | .ok txs => (match aggregate txs with | .ok a => a.weight | .error _ => 0)
+          | .error _ => 0
+        (st, cmpModel (toString mw) impl)
   | "reconcile_block" :: _ :: rest =>
     match (kv rest "ins").bind (fun s => (listItems s).mapM idOf), (kv rest "kers").bind (fun s => (listItems s).mapM idOf) with
     | some ins, some kers =>
